@@ -114,6 +114,16 @@ func verifHarnessClosedStruct() {
 	if s1.def {
 		embed = verifChoice(2) == 1
 	}
+	// SAME=1: R may be a second reference to #S1 (the same definition twice)
+	same := false
+	if verifParam("SAME", 0) == 1 && s1.def && s2.def {
+		same = verifChoice(2) == 1
+		if same {
+			s2 = s1
+		}
+	}
+	// {#S, c: 1} & #S: the second reference to the closed #S does not admit c
+	verifPublish("embedding-unified-with-a-second-reference-to-the-same-closed-definition", embed && same && s1.closed() && !s1.pattern)
 	var data [3]bool
 	for i := range data {
 		if i == 1 && verifParam("B", 1) == 0 {
@@ -141,7 +151,9 @@ func verifHarnessClosedStruct() {
 	default:
 		lhs = s1.lit(l)
 	}
-	if s2.def {
+	if same {
+		rhs = &FieldReference{Label: l.s1}
+	} else if s2.def {
 		rhs = &FieldReference{Label: l.s2}
 	} else {
 		rhs = s2.lit(l)
